@@ -2,7 +2,7 @@
 import random
 
 from . import common  # noqa: F401
-from .d_keyedlist import KItem
+from .d_keyedlist import KItem, KOther
 
 from spec_classes.types import KeyedSet
 
@@ -23,6 +23,8 @@ HASHABLE = {"self", "fn"}
 def expressible(flavour, item):
     if item["bad"] == "key" and flavour in ("self", "spec"):
         return False
+    if item["bad"] == "itemk" and flavour == "self":
+        return False
     if flavour == "self" and item["p"] != 0:
         return False
     return True
@@ -34,6 +36,8 @@ def gamma_item(flavour, item):
         return {"self": 5, "fn": "zz", "spec": 5, "unhash": "zz"}[flavour]
     if bad == "key":
         return {"fn": (7, 0), "unhash": [7, 0]}[flavour]
+    if bad == "itemk":          # wrong item type, good key
+        return KOther(k=item["k"], p=item["p"]) if flavour == "spec" else [item["k"], item["p"]] if flavour == "fn" else (item["k"], item["p"])
     if flavour == "self":
         return item["k"]
     if flavour == "spec":
@@ -196,7 +200,8 @@ def run_random(job):
     keys = [chr(ord("a") + i) for i in range(nkeys)]
     pays = [0] if flavour == "self" else list(range(npay))
     uni = [{"k": k, "p": p, "bad": "no"} for k in keys for p in pays]
-    bads = [x for x in ({"k": keys[0], "p": 0, "bad": "item"}, {"k": keys[0], "p": 0, "bad": "key"}) if typed and expressible(flavour, x)]
+    bads = [x for x in ({"k": keys[0], "p": 0, "bad": "item"}, {"k": keys[0], "p": 0, "bad": "key"}, {"k": keys[0], "p": 0, "bad": "itemk"}, {"k": keys[-1], "p": 0, "bad": "itemk"})
+            if typed and expressible(flavour, x)]
     out = []
 
     def operand():
